@@ -17,11 +17,11 @@ RULE = ("Hypothesis draws a volume (40..64 per side) with 2-6 planted particles 
         "template matcher), spaced >= 6 sigma (or 1.6 template boxes) apart and away from the faces, a pixel scale, an "
         "image dtype (float32/float64/int16/uint8) and a dask chunking (incl. chunks smaller than the overlap depth) "
         "with the particles placed relative to chunk borders (interior / on a border / on a corner shared by 8 "
-        "chunks). Oracle: picks scoring at least half the median score at the planted sites must be in bijection with "
+        "chunks); for the blob pickers one image axis in three of seven cases is a thin slab shorter than the overlap depth with the particles on its mid-plane. Oracle: picks scoring at least half the median score at the planted sites must be in bijection with "
         "the particles (within 1 px, none missed, no duplicates within the exclusion distance, none elsewhere), the "
         "template matcher must report the planted rotation, and the strong-pick set must be the same for numpy input "
         "and for the chunked input. Non-trivial = more than one chunk along an axis with a particle within the overlap "
-        "depth of a chunk border.")
+        "depth of a chunk border, or an image axis shorter than the overlap depth.")
 TOLERANCES = {"position": "1 px * scale", "numpy vs chunked positions": "0.5 px * scale", "scores numpy vs chunked": "5e-2 relative"}
 ASSUMPTIONS = ["strong pick = score >= 0.5 (LoG/DoG) or 0.75 (template matcher) * median score of the picks nearest to the planted sites (weak side-lobe maxima are ignored)"]
 
@@ -183,7 +183,14 @@ def cases(draw, pickers=("LoG", "DoG", "ZNCC")):
         tshape, blobs, rots, min_dist = None, None, [], None
     # chunk grid first, then particles relative to the borders
     vol, chunks, borders = [], [], []
+    # thin-slab class (blob pickers): one image axis is shorter than the overlap depth; particles sit on its mid-plane, so the
+    # response stays symmetric about their centre under the 'nearest' boundary
+    thin_axis = draw(st.sampled_from([None, None, None, None, 0, 1, 2])) if picker != "ZNCC" else None
     for a in range(3):
+        if a == thin_axis:
+            size = 2 * draw(st.integers(int(math.ceil(sigma_px)), (depth - 2) // 2)) + 1
+            vol.append(size), chunks.append([size]), borders.append([])
+            continue
         nchunk = draw(st.sampled_from([1, 2, 2, 3]))
         sizes = [draw(st.integers(max(depth // 2, 6), 30)) for _ in range(nchunk)]
         while sum(sizes) < 2 * margin + spacing:
@@ -199,6 +206,9 @@ def cases(draw, pickers=("LoG", "DoG", "ZNCC")):
         pos = []
         cls = draw(st.sampled_from(["interior", "border", "border", "corner"]))
         for a in range(3):
+            if a == thin_axis:
+                pos.append((vol[a] - 1) / 2)
+                continue
             lo, hi = margin, vol[a] - 1 - margin
             if cls in ("border", "corner") and borders[a] and (cls == "corner" or draw(st.booleans())):
                 b = draw(st.sampled_from(borders[a]))
@@ -217,6 +227,8 @@ def cases(draw, pickers=("LoG", "DoG", "ZNCC")):
 
 
 def nontrivial(d):
+    if any(v < d["depth"] for v in d["vol"]):
+        return True
     multi = any(len(c) > 1 for c in d["chunks"])
     if not multi:
         return False
@@ -234,6 +246,8 @@ def labels(d):
     labs |= {f"placement:{p['cls']}" for p in d["particles"]}
     if any(min(c) < d["depth"] for c in d["chunks"]):
         labs.add("chunk<depth")
+    if any(v < d["depth"] for v in d["vol"]):
+        labs.add("image-axis<depth")
     if d["picker"] == "ZNCC":
         labs.add(f"K:{1 + len(d['rots'])}")
         labs.add("template:cubic" if len(set(d["tshape"])) == 1 else "template:non-cubic")
